@@ -349,6 +349,10 @@ pub fn run_layout(opts: &Opts, rep: &mut Report) {
         layout_type!(rep, opts, idx, rng, "zst", false, |_i: u32| Zst);
         layout_type!(rep, opts, idx, rng, "static-str", false, |i: u32| WORDS[i as usize % WORDS.len()]);
         layout_type!(rep, opts, idx, rng, "array3xu16", false, |i: u32| [i as u16, 7, (i >> 3) as u16]);
+        if !cfg!(miri) {
+            // an item larger than a page
+            layout_type!(rep, opts, idx, rng, "array640xu64", false, |i: u32| [i as u64 ^ 0x9e37_79b9; 640]);
+        }
         layout_type!(rep, opts, idx, rng, "align16", false, |i: u32| A16(i));
         layout_type!(rep, opts, idx, rng, "align32", false, |i: u32| A32(i as u64, 3));
         layout_type!(rep, opts, idx, rng, "align64", false, |i: u32| A64(i as u8));
